@@ -31,6 +31,7 @@ def main (args : List String) : IO UInt32 := do
   | ["parse"] => lineLoop stdin stdout Oratio.Driver.RiddleParseD.step; return 0
   | ["net"] => stateLoop stdin stdout Oratio.Driver.NetD.step none; return 0
   | ["sweep"] => lineLoop stdin stdout Oratio.Driver.SweepD.step; return 0
+  | ["flaw"] => lineLoop stdin stdout Oratio.Driver.FlawD.step; return 0
   | ["exec"] => stateLoop stdin stdout Oratio.Driver.ExecD.step { now := 0, upt := 1 }; return 0
   | ["evala"] => lineLoop stdin stdout Oratio.Driver.EvalD.step; return 0
   | ["types"] => stateLoop stdin stdout Oratio.Driver.TypesD.step {}; return 0
